@@ -51,6 +51,25 @@ class ReturnSignal(Exception):
         self.value = value
 
 
+class OpenNdim:
+    """x.ndim of an array whose trailing axes are opaque: `explicit` axes are known, more follow"""
+
+    def __init__(self, explicit):
+        self.explicit = explicit
+
+
+class RestAxes:
+    """axis numbers `head` followed by every opaque trailing axis, in place (tuple(range(k, x.ndim)))"""
+
+    def __init__(self, head):
+        self.head = tuple(head)
+
+    def __radd__(self, other):
+        if isinstance(other, (tuple, list)):
+            return RestAxes(tuple(other) + self.head)
+        return NotImplemented
+
+
 class Interp:
     def __init__(self, repo, hooks=None, rule="AXTYPE"):
         self.repo = repo
@@ -414,6 +433,8 @@ class Interp:
             return r * l
         if isinstance(op, ast.Add) and isinstance(l, (tuple, list)) and type(l) is type(r):
             return l + r
+        if isinstance(op, ast.Add) and isinstance(l, (tuple, list)) and isinstance(r, RestAxes):
+            return RestAxes(tuple(l) + r.head)
         if isinstance(op, ast.Mult) and (isinstance(l, Size) or isinstance(r, Size)):
             if isinstance(l, Size) and isinstance(r, Size):
                 return l * r
@@ -519,7 +540,7 @@ class Interp:
             if attr == "ndim":
                 if base.ndim_known:
                     return len(base.axes)
-                self.unknown("ndim of an array with opaque trailing axes", node)
+                return OpenNdim(explicit_axes(base))  # explicit axes + the opaque trailing ones
             if attr == "dtype":
                 return Opaque("dtype:" + base.dtype)
             return ("arr-method", base, attr)
@@ -658,6 +679,8 @@ class Interp:
                 if isinstance(x, Grid):
                     return x.shape[0]
                 self.unknown(f"len({x!r})", e)
+            if fn in (list, tuple) and args and isinstance(args[0], RestAxes):
+                return args[0]
             if fn in (list, tuple):
                 return fn(self.iterate(args[0], e)) if args else fn()
             if fn in (enumerate, zip, reversed, sorted):
@@ -666,6 +689,9 @@ class Interp:
             if fn is range:
                 if all(isinstance(a, int) for a in args):
                     return range(*args)
+                if len(args) == 2 and isinstance(args[0], int) and isinstance(args[1], OpenNdim) and 0 <= args[0] <= args[1].explicit:
+                    # range(k, x.ndim) for an array with opaque trailing axes: the explicit axes k.. and then all trailing ones
+                    return RestAxes(tuple(range(args[0], args[1].explicit)))
                 hook = self.hooks.get("symbolic_range")
                 if hook is not None:
                     return hook(self, args, e)
@@ -756,6 +782,12 @@ class Interp:
             return swapaxes(self.need_arr(a0, e), args[1], args[2], e)
         if short == "transpose":
             perm = args[1] if len(args) > 1 else kwargs.get("axes")
+            if isinstance(perm, RestAxes):
+                arr_ = self.need_arr(a0, e)
+                if arr_.ndim_known or sorted(perm.head) != list(range(explicit_axes(arr_))):
+                    raise AxTypeError(f"transpose permutation {perm.head} + trailing axes does not cover the {explicit_axes(arr_)} leading axes of "
+                                      f"{show_axes(arr_.axes)}", e)
+                perm = perm.head
             return transpose(self.need_arr(a0, e), perm, e)
         if short == "moveaxis":
             return moveaxis(self.need_arr(a0, e), args[1], args[2], e)
